@@ -4,7 +4,9 @@
 // and, in lock-step, on *os.File / package os in a tmpfs scratch directory
 // (the Linux kernel is the oracle): same byte count, bytes, offset and error
 // kind call by call; same content, size, attributes and offsets through every
-// name and every open handle after every call. State identity is taken from
+// name and every open handle after every call; every FileInfo / DirEntry the
+// emulated side has handed out earlier in the history is read again after
+// every call and must not have changed (kept.go). State identity is taken from
 // the kernel side. The file a history starts from is either fresh (one
 // WriteFile) or has a history of its own (start.go: shrunk, extended, emptied
 // and rewritten, with a handle left beyond its end). A second family of
@@ -455,7 +457,7 @@ func main() {
 		Coverage: map[string]any{
 			"states": states, "transitions": trans, "traces_validated_against_impl": trans,
 			"evaluations": trans, "distinct_nontrivial": len(outcomes),
-			"rule":            "every history of length <= bound over a static alphabet (open with each flag set, Read, ReadAt, Write, WriteString, WriteAt, Seek, Truncate, Stat, Sync, Chmod, Chown, Chdir, Close, Name per handle slot; offsets and sizes from {-1,0,1,size-1,size,size+2} evaluated against the kernel-side size; path-level Truncate, Rename, Link, Remove, ReadFile, Stat) executed on a fresh MemFS/OrefaFS and in lock-step on *os.File in a fresh tmpfs directory at the same absolute path; start states: the file made by one WriteFile (\"\", \"abc\", \"abcdef\") and, in the groups named history-starts, the file left behind by a prologue executed and compared on both sides (written long and shrunk to a non-zero size through its name / through a handle, extended by Truncate or by a write beyond the end, emptied by Truncate(0) / O_TRUNC / WriteFile and written again shorter, a handle left open beyond the end of the shrunk file; the systems list names them, start.go holds the calls) so that writes, WriteAt and Truncate beyond the end after a shrink lie within the bound; breadth-first with state deduplication on the kernel-side key; transitions = calls actually executed on both sides; distinct_nontrivial = distinct (call, kernel outcome class) pairs observed",
+			"rule":            "every history of length <= bound over a static alphabet (open with each flag set, Read, ReadAt, Write, WriteString, WriteAt, Seek, Truncate, Stat, Sync, Chmod, Chown, Chdir, Close, Name per handle slot; offsets and sizes from {-1,0,1,size-1,size,size+2} evaluated against the kernel-side size; path-level Truncate, Rename, Link, Remove, ReadFile, Stat) executed on a fresh MemFS/OrefaFS and in lock-step on *os.File in a fresh tmpfs directory at the same absolute path; start states: the file made by one WriteFile (\"\", \"abc\", \"abcdef\") and, in the groups named history-starts, the file left behind by a prologue executed and compared on both sides (written long and shrunk to a non-zero size through its name / through a handle, extended by Truncate or by a write beyond the end, emptied by Truncate(0) / O_TRUNC / WriteFile and written again shorter, a handle left open beyond the end of the shrunk file; the systems list names them, start.go holds the calls) so that writes, WriteAt and Truncate beyond the end after a shrink lie within the bound; after every call every fs.FileInfo the emulated side has returned earlier on that instance (File.Stat / Stat of the alphabet, Lstat of both names and Stat through every open handle of the state observation that follows every call; in the directory systems every fs.DirEntry of a ReadDir and the fs.FileInfo of its Info()) is read again through all its accessors (Name, Size, Mode, ModTime, IsDir, Type, owner, group, link count) and must answer what it answered when it was returned (violations of kind kept-value); breadth-first with state deduplication on the kernel-side key; transitions = calls actually executed on both sides; distinct_nontrivial = distinct (call, kernel outcome class) pairs observed",
 			"samples":         samples,
 			"outcome_classes": oc,
 			"exhaustive":      exh, "bound": strings.Join(bound, "; "),
@@ -470,6 +472,7 @@ func main() {
 			"Seek whence is taken from {0,1,2,5}: SEEK_DATA/SEEK_HOLE (3,4) have file-system specific answers on tmpfs and are not defined by the property",
 			"start states with a history are reached by a fixed prologue per system (not enumerated): 3 of the 10 prologues in the quick tier with one handle slot, all 10 in the thorough tier with one slot (one call deeper) and with two slots; a difference between the two sides during the prologue is reported as a violation of kind start-state and that system is not explored further",
 			"only R/f is opened; R/g is observed through ReadFile/Stat after every call; uid/gid are not compared (Chown is called with the root ids)",
+			"values handed out earlier (kept.go): os.File.Stat / os.Stat / os.Lstat / File.ReadDir return snapshots, so the emulated side is compared with itself (what a kept value answered when it was returned against what it answers after every later call of the same history); a kept fs.DirEntry is read again through Name/IsDir/Type only (package os allows Info() to look at the file at the time of the call), the fs.FileInfo its Info() gave when the entry was delivered is kept as a value of its own; values are kept per instance since its reset: along the history that reaches a state and along the calls tried from that state that leave the kernel-side state unchanged (the instance is rebuilt after a call that changes it); the kernel side keeps nothing (values of package os are copies)",
 			"directory handles: kernel entry order is unspecified, so batch sizes, error kinds, no-duplicate, membership, type and union are compared, not order; after a Create/Remove a handle that had started reading is checked only for the emulation-internal protocol clauses (kernel answers are file-system specific there)",
 			"random long histories (second half of the quantifier) are sampling and are not run; replaced by the exhaustive bound",
 		},
